@@ -547,6 +547,111 @@ def put_dynamic_header(bw, litlens, distlens, final=False, use_repeats=True, cl_
             bw.put(e, n)
 
 
+# --- code lengths as explicit code-length-alphabet items (RFC 1951 3.2.7) -----------------------------------
+# an item is ('l', n): the length n (0..15) | ('a', k): symbol 16, copy the previous length k = 3..6 times |
+# ('b', k): symbol 17, k = 3..10 zeros | ('c', k): symbol 18, k = 11..138 zeros
+
+_ITEM_SYM = {'a': (16, 3, 6, 2), 'b': (17, 3, 10, 3), 'c': (18, 11, 138, 7)}      # symbol, min, max, extra bits
+
+
+def item_symbol(it):
+    return it[1] if it[0] == 'l' else _ITEM_SYM[it[0]][0]
+
+
+def item_in_range(it):
+    if it[0] == 'l':
+        return 0 <= it[1] <= 15
+    _, lo, hi, _ = _ITEM_SYM[it[0]]
+    return lo <= it[1] <= hi
+
+
+def expand_items(items):
+    """the code lengths the items stand for (written from the RFC text); None if symbol 16 has no previous length"""
+    out = []
+    for kind, k in items:
+        if kind == 'l':
+            out.append(k)
+        elif kind == 'a':
+            if not out:
+                return None
+            out += [out[-1]] * k
+        else:
+            out += [0] * k
+    return out
+
+
+def rle_items(seq, rng=None):
+    """code-length items for `seq`.  rng=None: greedy (zeros: 138 at a time with symbol 18 while >= 11 are left, symbol 17
+       for 3..10, else single zeros; other lengths: the length, then 6 copies at a time with symbol 16 while >= 3 are
+       left, else single lengths).  With rng: a random legal segmentation (symbol 16 after a zero as well)."""
+    items, i, n = [], 0, len(seq)
+    while i < n:
+        v = seq[i]
+        run = 1
+        while i + run < n and seq[i + run] == v:
+            run += 1
+        if rng is None:
+            if v == 0:
+                left = run
+                while left:
+                    if left < 3:
+                        items.append(('l', 0))
+                        left -= 1
+                    elif left <= 10:
+                        items.append(('b', left))
+                        left = 0
+                    elif left <= 138:
+                        items.append(('c', left))
+                        left = 0
+                    else:
+                        items.append(('c', 138))
+                        left -= 138
+            else:
+                items.append(('l', v))
+                left = run - 1
+                while left:
+                    if left < 3:
+                        items.append(('l', v))
+                        left -= 1
+                    elif left <= 6:
+                        items.append(('a', left))
+                        left = 0
+                    else:
+                        items.append(('a', 6))
+                        left -= 6
+            i += run
+        else:
+            opts = [('l', v)]
+            if v == 0 and run >= 3:
+                opts += [('b', rng.choice([3, min(run, 10), rng.randint(3, min(run, 10))]))] * 2
+            if v == 0 and run >= 11:
+                opts += [('c', rng.choice([11, min(run, 138), rng.randint(11, min(run, 138))]))] * 3
+            if i > 0 and seq[i - 1] == v and run >= 3:
+                opts += [('a', rng.choice([3, min(run, 6), rng.randint(3, min(run, 6))]))] * 3
+            it = rng.choice(opts)
+            items.append(it)
+            i += 1 if it[0] == 'l' else it[1]
+    return items
+
+
+def put_dynamic_header_items(bw, nlen, ndist, items, cl_lens, ncode, final=False):
+    """block header of a dynamic block whose nlen + ndist code lengths are sent as `items`, in the canonical code of
+       the 19 code-length-code lengths `cl_lens`, of which the first `ncode` (in the order of 3.2.7) are sent"""
+    bw.put(1 if final else 0, 1)
+    bw.put(2, 2)
+    bw.put(nlen - 257, 5)
+    bw.put(ndist - 1, 5)
+    bw.put(ncode - 4, 4)
+    for k in range(ncode):
+        bw.put(cl_lens[_CLORDER[k]], 3)
+    cc = canonical_codes(cl_lens)
+    for it in items:
+        bw.code(*cc[item_symbol(it)])
+        if it[0] != 'l':
+            _, lo, _, nb = _ITEM_SYM[it[0]]
+            bw.put(it[1] - lo, nb)
+
+
 def put_dynamic_block(bw, tokens, final=False, use_repeats=True):
     lf, df = [0] * 286, [0] * 30
     lf[256] = 1
